@@ -13,6 +13,9 @@ def rewrite_cbreaker(src):
     """package cbreaker calls the queue and the adders through atomic wrappers"""
     src = src.replace('"go.linecorp.com/garr/adder"', '"go.linecorp.com/garr/vshim/vadder"')
     src = src.replace('"go.linecorp.com/garr/queue"', '"go.linecorp.com/garr/vshim/vqueue"')
+    # the package's own SystemTicker reads the scripted clock (vtime.NowHook) when the driver selects it
+    src = re.sub(r'(?m)^(\s*)"time"', r'\1time "go.linecorp.com/garr/vshim/vtime"', src)
+    src = re.sub(r'(?m)^import "time"', 'import time "go.linecorp.com/garr/vshim/vtime"', src)
     return src
 
 def rewrite(src):
